@@ -54,6 +54,8 @@ func Bad(class, detail string) Res {
 type Oracle func(input string) Res
 
 type Check struct {
+	// DeathClass (optional) qualifies the class of a worker death (crash:<site>, hang) by the family of the input in flight
+	DeathClass  func(class, oracle, input string) string
 	ID          string
 	Level       string // exploration | model_checking | fault_enumeration
 	Rule        string
@@ -576,6 +578,9 @@ func RunParent(c *Check, tier string) int {
 				fmt.Fprintf(os.Stderr, "HARNESS ERROR: %s\n", st)
 				harnessErr = true
 				continue
+			}
+			if c.DeathClass != nil {
+				class = c.DeathClass(class, or, in)
 			}
 			f := Fail{Oracle: or, Class: class, Witness: in, Detail: st}
 			cr := merged[class]
